@@ -28,6 +28,9 @@ CLAIMED = {
  "C01": dict(level="other", design="3/C01", tech="polynomial value numbering (allocation and address formulas incl. allocator call arguments) and bit-provenance footprint analysis over inlined LLVM IR",
    text="Decides the structural necessary conditions of in-buffer access for all dimensions/alignments at once: (1) address law of interleaved_view/planar_*_view; (2) for image<> over interleaved, planar, 16-bit, float, packed and bit-aligned pixels, at every construction site (size/fill/copy/move/view constructors, assignment, the three branches of every recreate overload) the cell polynomial of view(img)(x,y) -- including the byte count passed to the allocator -- equals the documented mechanism, and deallocate receives the allocated pointer and size; (3) byte footprint of packed/bit-aligned channel access inside the pixel's own bytes. With 0<=x<w, 0<=y<h these premises give the in-buffer lemma. Part (3) reports the library's genuine over-wide bit-field access as known findings.",
    note="Level 'other': necessary conditions, not the whole property. Trusted: clang front end, LLVM inliner/SROA/mem2reg/full unrolling, harness/ir/poly.py + bits.py; boost::gil::align is uninterpreted on both sides (its multiple-of-a contract is checked separately); *_pixels algorithms do not modify the image object. Not decided: that iterators and algorithms visit only in-range coordinates; overflow of w*h*step."),
+ "C10": dict(level="other", design="3/C10", tech="ownership/lifetime typestate: structured abstract interpretation over the instantiated AST (all members, all exits incl. exceptional)",
+   text="Every public member of image<> (constructors, destructor, copy/move/converting assignment, swap, all recreate overloads) is abstractly executed on the instantiated AST from every generic entry state, through every branch and with an exceptional successor at every call that may throw, descending into image's helpers and running ~image for temporaries, for interleaved/planar x {std::allocator, stateful propagating, stateful non-propagating possibly unequal}. Leak, double free/dangling view, recorded size, allocator identity, element lifetime and moved-from obligations are checked at every deallocate, overwrite of _memory and every normal and exceptional exit: whole-history resource balance follows from each member preserving the invariant. The recreate reuse-branch exception-safety defect is a known finding; the move-assign defect was repaired.",
+   note="Level 'other': sound for the modelled ownership protocol; trusted axioms for allocate/deallocate and the *_pixels algorithms (construct: raw->constructed or throw leaving raw). Unknown conditions are explored both ways. A non-trivial element type cannot be instantiated with BOOST_GIL_USE_CONCEPT_CHECK, so element lifetime is decided on the image protocol, not inside algorithm.hpp's roll-back loops. Not decided: pixel values after copy; C++17 non-propagating swap path."),
 }
 NA_REASON = {
  "C19": "sums over hash-map contents filled in data-dependent loops; no static domain in reach relates container contents to pixel counts (DESIGN 3/C19)",
